@@ -136,6 +136,7 @@ def mutants(prog):
                 count += 1
                 yield (f"inplace twin in {modname.split('.')[-1]}.{name}", ov, "E1.pure")
     specs = [
+        ("spatial_derivatives reshapes the caller's spacing", 'deepali.core.image', 'spatial_derivatives', 'spacing = spacing.unsqueeze(0)', 'spacing = spacing.unsqueeze_(0)', 'E1.pure'),
         ("grid deepcopy shares tensors", "deepali.core.grid", "Grid.clone", "setattr(grid, name, value.clone())", "setattr(grid, name, value)", "T15.deepcopy"),
         ("batch deepcopy shares grids", "deepali.data.image", "ImageBatch.__deepcopy__", "grid=tuple((grid.clone() for grid in self._grid)), ", "", "T15.deepcopy"),
         ("image deepcopy shares data", "deepali.data.image", "Image.__deepcopy__", "self.data.clone(memory_format=torch.preserve_format)", "self.data", "T15.deepcopy"),
